@@ -5,6 +5,7 @@ package agentsim
 
 import (
 	"context"
+	"encoding/json"
 	"errors"
 	"fmt"
 	"io"
@@ -12,6 +13,7 @@ import (
 	"strings"
 
 	"github.com/cloudwego/eino/components/tool"
+	"github.com/cloudwego/eino/components/tool/utils"
 	"github.com/cloudwego/eino/compose"
 	"github.com/cloudwego/eino/schema"
 
@@ -43,12 +45,12 @@ type toolCallRec struct {
 }
 
 type aenv struct {
-	s       *kernel.Sim
-	seq     int
-	calls   []toolCallRec
-	prodN   int
-	faults  map[string]int
-	probes  map[string]int
+	s        *kernel.Sim
+	seq      int
+	calls    []toolCallRec
+	prodN    int
+	faults   map[string]int
+	probes   map[string]int
 	problems []core.Violation
 	// model
 	modelCalls map[string]int
@@ -64,7 +66,7 @@ func (e *aenv) nextSeq() int { e.seq++; return e.seq }
 // toolSpec is the plan of one tool.
 type toolSpec struct {
 	Name   string
-	Kind   int // 0 invokable only, 1 streamable only, 2 both
+	Kind   int // 0 invokable only, 1 streamable only, 2 both, 3 invokable built with components/tool/utils (JSON arguments decoded into a pointer-typed request)
 	Yields int
 	Cut    int
 	Pipe   bool
@@ -78,6 +80,19 @@ type baseTool struct {
 }
 
 func toolOutput(name, args string) string { return name + "(" + args + ")" }
+
+// expectedContent is the content of the tool message the tools node must produce for a call:
+// the tool's output; tools built with components/tool/utils marshal their result to JSON.
+func expectedContent(specs []*toolSpec, name, args string) string {
+	out := toolOutput(name, args)
+	for _, sp := range specs {
+		if sp.Name == name && sp.Kind == 3 {
+			b, _ := json.Marshal(out)
+			return string(b)
+		}
+	}
+	return out
+}
 
 func (b *baseTool) Info(ctx context.Context) (*schema.ToolInfo, error) {
 	return &schema.ToolInfo{Name: b.spec.Name, Desc: "simulated tool " + b.spec.Name}, nil
@@ -169,11 +184,35 @@ func (t bothTool) StreamableRun(ctx context.Context, args string, _ ...tool.Opti
 	return t.stream(ctx, args)
 }
 
+// utilReq is the request type of the tools built with utils.InferTool.
+type utilReq struct {
+	A string `json:"a"`
+	B string `json:"b,omitempty"`
+}
+
 func (e *aenv) build(specs []*toolSpec) []tool.BaseTool {
 	var out []tool.BaseTool
 	for _, sp := range specs {
 		b := &baseTool{spec: sp, env: e}
 		switch sp.Kind {
+		case 3:
+			bb := b
+			t, err := utils.InferTool(sp.Name, "simulated tool "+sp.Name, func(ctx context.Context, in *utilReq) (string, error) {
+				// the tool yields between receiving its request and using it
+				args := in.A
+				for i := 0; i < bb.spec.Yields+1; i++ {
+					e.s.Yield("utiltool:" + bb.spec.Name)
+				}
+				if in.A != args || in.B != "" {
+					e.problems = append(e.problems, core.Violation{Class: "C17/tool-request-changed-under-the-tool", Msg: fmt.Sprintf("%s was called with a=%q; while it was working its request became a=%q b=%q", bb.spec.Name, args, in.A, in.B)})
+				}
+				// (it reads the request when it needs it, i.e. after the slow part)
+				return bb.run(ctx, `{"a":"`+in.A+`"}`, false)
+			})
+			if err != nil {
+				panic(err)
+			}
+			out = append(out, t)
 		case 0:
 			out = append(out, invTool{b})
 		case 1:
@@ -188,7 +227,7 @@ func (e *aenv) build(specs []*toolSpec) []tool.BaseTool {
 func drawTools(t *kernel.Tape, n int) []*toolSpec {
 	var specs []*toolSpec
 	for i := 0; i < n; i++ {
-		specs = append(specs, &toolSpec{Name: fmt.Sprintf("t%d", i), Kind: t.Plan(3), Yields: t.Plan(3), Cut: t.Plan(4), Pipe: t.PlanBool(50), Fail: map[string]int{}})
+		specs = append(specs, &toolSpec{Name: fmt.Sprintf("t%d", i), Kind: t.Plan(4), Yields: t.Plan(3), Cut: t.Plan(4), Pipe: t.PlanBool(50), Fail: map[string]int{}})
 	}
 	return specs
 }
@@ -246,7 +285,7 @@ func runC17(t *kernel.Tape, opt core.Opts) *core.Outcome {
 	var calls []callPlan
 	unknown := false
 	for i := 0; i < n; i++ {
-		c := callPlan{Args: fmt.Sprintf("a%d", i), ID: fmt.Sprintf("c%d", i)}
+		c := callPlan{Args: fmt.Sprintf(`{"a":"a%d"}`, i), ID: fmt.Sprintf("c%d", i)}
 		if t.PlanBool(12) {
 			c.Name = "nosuchtool"
 			unknown = true
@@ -401,7 +440,7 @@ func runC17(t *kernel.Tape, opt core.Opts) *core.Outcome {
 		}
 		var want []string
 		for _, c := range calls {
-			content := toolOutput(c.Name, c.Args)
+			content := expectedContent(specs, c.Name, c.Args)
 			if c.Name == "nosuchtool" {
 				content = "unk(" + c.Name + "," + c.Args + ")"
 			}
@@ -446,6 +485,9 @@ func runC17(t *kernel.Tape, opt core.Opts) *core.Outcome {
 			o.Stat("probe.tools_started_out_of_call_order", 1)
 		}
 	}
+	for _, v := range env.problems {
+		o.Violate(v.Class, v.Msg)
+	}
 	for k, v := range env.faults {
 		o.Stat("fault."+k, v)
 	}
@@ -478,9 +520,9 @@ var agentStub = []string{"tools (harness tasks that yield, stream in chunks, fai
 
 func init() {
 	core.Register(&core.Profile{
-		ID: "C17", Engine: "agentsim", Quick: 4000, Thorough: 100000, ThoroughSeeds: 3, Run: runC17,
-		Rule:   "each run draws 2-4 tools (invokable-only, streamable-only, both; yields, chunkings), an assistant message with 1-5 calls (repeated tools, unknown names), an unknown-tool handler or none, 0-2 failing calls (error, panic, error item mid-stream), direct call or inside a graph, Invoke or Stream, and one schedule (tool completion order); oracle: N answers in call order with the right ids and outputs, concat(Stream)=Invoke, failures and unknown names reported, every call executed exactly once with its own call id",
-		Real:   agentReal, Stub: agentStub,
+		RaceQuick: 200, RaceThorough: 3000, ID: "C17", Engine: "agentsim", Quick: 4000, Thorough: 100000, ThoroughSeeds: 3, Run: runC17,
+		Rule: "each run draws 2-4 tools (invokable-only, streamable-only, both; yields, chunkings), an assistant message with 1-5 calls (repeated tools, unknown names), an unknown-tool handler or none, 0-2 failing calls (error, panic, error item mid-stream), direct call or inside a graph, Invoke or Stream, and one schedule (tool completion order); oracle: N answers in call order with the right ids and outputs, concat(Stream)=Invoke, failures and unknown names reported, every call executed exactly once with its own call id",
+		Real: agentReal, Stub: agentStub,
 		Faults: []string{"tool completion order", "tool error", "tool panic", "error item mid-stream", "unknown tool name"},
 	})
 }
